@@ -1,6 +1,7 @@
 """C03 — size-limited encoding: all buffer writes go through the size-guarded writer; offset rewinds
 are paired with a buffer truncate; TC/count dataflow; limit selection per protocol."""
 import re
+import helpers
 from api import shorten, writers, Site
 
 EXPLANATION = (
@@ -216,3 +217,6 @@ def run(cx):
         snd = cx.calls(r, r'DnsStreamHandle>::send$|BufDnsStreamHandle::send$')
         ok = len(snd) == 1 and bool(re.search(r'SerialMessage::new\(try\(MessageResponse::encode\(.*,\^?arg1\.protocol\)\)@Continue\.0\.1,\^?arg1\.dst\)', snd[0].term))
         cx.check('C03.T1', ok, r.path, 'call', 'sends-encode(self.protocol)-buffer-to-dst', snd[0].term[:260] if snd else 'none')
+
+    # ---------------------------------------------------------------- H helper semantics the guards above rely on (rules/helpers.py)
+    helpers.check(cx, 'C03.H', ['Edns::max_payload'])
